@@ -74,13 +74,15 @@ func (k *varKM) AggregateRandomSeed(h primitives.BlockHeight, shares []*protocol
 }
 
 type c20 struct {
-	findings []harness.Finding
-	byRule   map[string]int
-	evals    int
-	distinct map[string]bool
-	samples  []interface{}
-	rng      *rand.Rand
-	lenMode  int
+	findings   []harness.Finding
+	byRule     map[string]int
+	evals      int
+	distinct   map[string]bool
+	samples    []interface{}
+	rng        *rand.Rand
+	lenMode    int
+	largeBytes int
+	big        bool
 }
 
 func (c *c20) bad(rule, d string) {
@@ -217,12 +219,21 @@ func (c *c20) prepared(inst, h uint64, nPrep int) *preparedFix {
 	hash := c.bytesN(64)
 	blk := &spi.Blk{H: h, Body: fmt.Sprintf("b%d", c.rng.Intn(1000))}
 	leader := c.bytesN(40)
+	if c.big {
+		leader = make([]byte, 256)
+		c.rng.Read(leader)
+	}
 	fl, _ := c.factory(inst, leader, 1)
 	ppm := fl.CreatePreprepareMessage(primitives.BlockHeight(h), primitives.View(view), blk, hash)
 	fix := &preparedFix{leader: leader, ppSig: ppm.Content().Sender().Signature(), hash: hash, view: view, blk: blk}
 	var pms []*interfaces.PrepareMessage
 	for i := 0; i < nPrep; i++ {
 		id := append(c.bytesN(30), byte(i))
+		if c.big {
+			id = make([]byte, 256)
+			c.rng.Read(id)
+			id[0] = byte(i)
+		}
 		fp, _ := c.factory(inst, id, 1)
 		pm := fp.CreatePrepareMessage(primitives.BlockHeight(h), primitives.View(view), hash)
 		pms = append(pms, pm)
@@ -270,6 +281,9 @@ func (c *c20) checkProof(what string, p *ref.Proof, fix *preparedFix, inst, h ui
 
 func (c *c20) one(i int) {
 	c.lenMode = c.rng.Intn(8)
+	if i%600 == 5 {
+		c.lenMode = 2 // the large NEW_VIEW case: 256-byte signatures throughout
+	}
 	inst, h, v := c.u64(), c.u64(), c.u64()
 	me := c.bytesN(256)
 	seed := c.u64()
@@ -342,6 +356,11 @@ func (c *c20) one(i int) {
 		key = fmt.Sprintf("VC|%d|%d", np, len(me))
 	case 5:
 		nv := c.rng.Intn(21)
+		large := i%600 == 5 // a NEW_VIEW of a few hundred kilobytes: 20 votes, each with a proof of 20 senders, 256-byte ids and signatures
+		if large {
+			nv = 20
+		}
+		c.big = large
 		var vcms []*interfaces.ViewChangeMessage
 		var fixes []*preparedFix
 		var voters [][]byte
@@ -351,8 +370,12 @@ func (c *c20) one(i int) {
 			fv, _ := c.factory(inst, id, seed)
 			var fix *preparedFix
 			var pm *preparedmessages.PreparedMessages
-			if c.rng.Intn(2) == 0 {
-				fix = c.prepared(inst, h, c.rng.Intn(6))
+			if c.rng.Intn(2) == 0 || large {
+				np := c.rng.Intn(6)
+				if large {
+					np = 20
+				}
+				fix = c.prepared(inst, h, np)
 				pm = fix.pm
 			}
 			vcms = append(vcms, fv.CreateViewChangeMessage(H, V, pm))
@@ -392,7 +415,11 @@ func (c *c20) one(i int) {
 				c.bad("embedded-proposal-signature-no-longer-verifies", "NEW_VIEW")
 			}
 		}
-		key = fmt.Sprintf("NV|%d|%d", nv, len(me))
+		c.big = false
+		key = fmt.Sprintf("NV|%d|%d|%v", nv, len(me), large)
+		if large {
+			c.largeBytes = len(nvm.ToConsensusRawMessage().Content)
+		}
 	}
 	c.distinct[key] = true
 	if len(c.samples) < 5 && i%1013 == 5 {
@@ -463,11 +490,12 @@ func CheckC20(run *harness.Run) int {
 		}
 	}
 	cov := map[string]interface{}{
-		"evaluations":         c.evals,
-		"distinct_nontrivial": len(c.distinct),
-		"rule":                "messages built by the real MessageFactory with generated values: instance / height / view over the 64-bit range (boundaries 2^31, 2^32, 2^63, 2^64-1), ids / hashes of 0..256 arbitrary bytes, signatures and shares of 0..256 bytes (content-dependent length), 0..20 prepare senders and 0..20 votes with/without proofs and blocks; converted to raw, copied into a buffer of another capacity, parsed back and compared field by field with the generator's inputs, signatures re-verified over the re-read bytes; block proofs from 1..20 commits. distinct = (type, nested sizes, sender length) classes",
-		"samples":             c.samples,
-		"violations_by_rule":  c.byRule,
+		"evaluations":            c.evals,
+		"distinct_nontrivial":    len(c.distinct),
+		"rule":                   "messages built by the real MessageFactory with generated values: instance / height / view over the 64-bit range (boundaries 2^31, 2^32, 2^63, 2^64-1), ids / hashes of 0..256 arbitrary bytes, signatures and shares of 0..256 bytes (content-dependent length), 0..20 prepare senders and 0..20 votes with/without proofs and blocks; converted to raw, copied into a buffer of another capacity, parsed back and compared field by field with the generator's inputs, signatures re-verified over the re-read bytes; block proofs from 1..20 commits. distinct = (type, nested sizes, sender length) classes",
+		"samples":                c.samples,
+		"violations_by_rule":     c.byRule,
+		"largest_new_view_bytes": c.largeBytes,
 	}
 	run.WriteEvidence("exploration", cov, []string{"variable-length recomputable signatures stand in for real ones", "the reference decoder reads with the generated readers (trusted)"}, len(c.findings))
 	fmt.Printf("C20 %s: evaluations=%d distinct classes=%d\n", run.Tier, c.evals, len(c.distinct))
